@@ -4,7 +4,7 @@ from vlib.core import Case
 PROP = "C16"
 SPEC_MODE = "spec"
 KEEP_PREFIX = 0
-SIZES = {"quick": 1500, "thorough": 40000}
+SIZES = {"quick": 6000, "thorough": 100000}
 BATCH = 4000
 EXTRA_MODULES = ("Sentinel.Lemmas.Chain",)
 RULE = ("1-4 real base.SlotChain objects per case assembled by Add*Slot from 0-9 recording slots per kind, order values drawn from a "
